@@ -50,13 +50,13 @@ int main(int argc, char **argv)
     if (expires <= -1) {   // keep the heuristic branches free of signed overflow for the replay (contract domain)
         if (age < 0 || rmin < 0 || rmax < 0 || timestamp < -1 || lastmod < -1 || !(pct >= 0.0)) RP_OK("outside the heuristic target's domain");
     }
-    int r = rs_refreshStaleness(expires, timestamp, lastmod, check_time, age, rmin, pct, rmax, sf_in);
-    printf("expires=%ld check_time=%ld timestamp=%ld lastmod=%ld age=%ld min=%ld pct=%g max=%ld -> staleness=%d flags=%d\n",
+    long r = rs_refreshStaleness(expires, timestamp, lastmod, check_time, age, rmin, pct, rmax, sf_in);
+    printf("expires=%ld check_time=%ld timestamp=%ld lastmod=%ld age=%ld min=%ld pct=%g max=%ld -> staleness=%ld flags=%d\n",
            expires, check_time, timestamp, lastmod, age, rmin, pct, rmax, r, g_sf_bits);
     if (r < -1) RP_FAIL("negative staleness other than -1: refreshCheck() treats it as neither fresh nor stale (skips must-revalidate and max-stale limits)");
     if (expires > -1) {
         if ((r == -1) != (expires > check_time)) RP_FAIL("explicit expiry: answered %s although expires %s check_time", r == -1 ? "FRESH" : "stale", expires > check_time ? ">" : "<=");
-        if (expires <= check_time && (long)r != check_time - expires) RP_FAIL("staleness %d != check_time - expires = %ld (result narrowed to int)", r, check_time - expires);
+        if (expires <= check_time && (long)r != check_time - expires) RP_FAIL("staleness %ld != check_time - expires = %ld (result narrowed to int)", r, check_time - expires);
         if (g_sf_bits != (sf_in | 1)) RP_FAIL("stale_flags");
     } else {
         int rule = spec_rule(expires, timestamp, lastmod, check_time, age, rmin, pct, rmax);
